@@ -142,6 +142,9 @@ impl Core {
       // code found in RAM. Only ROM code should be recompiled, the rest
       // should be interpreted.
       if can_dynarec(ip) {
+        // cached blocks in the switchable region are keyed by the bank they
+        // were translated from
+        self.cache.set_rom_bank(self.memory.get_rom_bank());
         let address = {
           let found_address = self.cache.get_address_for_ip(ip);
           if let Some(addr) = found_address {
